@@ -113,10 +113,18 @@ let () =
         (* enumeration membership is no longer handed over: the model uses the tables regenerated from the source (gen_lk) *)
         let q = int_of_string (next ()) in
         let _ = List.init q (fun _ -> let en = nz () in let v = nz () in (en, v)) in
+        (* NM <k> { enum value hexname }*k: the Debug names, in the two large Windows tables, of the values this case consults *)
+        let bignames = if !pos < Array.length toks && toks.(!pos) = "NM" then begin
+            incr pos;
+            let k = int_of_string (next ()) in
+            List.init k (fun _ -> let en = nz () in let v = nz () in let hx = next () in
+              (en, v, List.init (String.length hx / 2) (fun i -> z_of_int (int_of_string ("0x" ^ String.sub hx (2 * i) 2)))))
+          end else [] in
+        let nm en v = match List.find_opt (fun (e2, v2, _) -> e2 = en && v2 = v) bignames with Some (_, _, n) -> Some n | None -> None in
         let d = { d_platform = platform; d_arch = arch; d_time = time; d_threads = threads; d_names = names;
                   d_exc = exc; d_bp = bp; d_misc = misc; d_status = status; d_modules = mods;
                   d_unloaded = unl; d_mems = mems } in
-        print_out (fun n -> "n" ^ string_of_z n) string_of_z (run_case Debug d)
+        print_out (fun n -> "n" ^ string_of_z n) string_of_z (run_case_nm nm Debug d)
       end
     done
   with End_of_file -> ()
